@@ -730,34 +730,53 @@ theorem sim_star {srun : SRun} {irun : IRun} (hsim : Sim srun irun) (Γ : List N
         obtain ⟨L2, h2, ha2⟩ := ih L1 p' (v :: acc) r ha1 h
         exact ⟨L2, by simp [implStar, h1, h2], ha2⟩
 
-theorem sim_rep {srun : SRun} {irun : IRun} (hsim : Sim srun irun) (Γ : List Name) (ρ : SEnv) (e : XExpr)
-    (hws : ws Γ e = true) :
-    ∀ (n : Nat) (L : Locals) (p : Nat) (acc : List Val) (r : Res),
+theorem sim_rep {srun : SRun} {irun : IRun} (hsim : Sim srun irun) (P : XProgram) (Γ : List Name) (ρ : SEnv)
+    (e : XExpr) (t : PyTerm) (hws : ws Γ e = true) (ht : allIn Γ t.names = true) (i : Int)
+    (hcount : evalPyS P ρ t [] = some (.int i)) :
+    ∀ (n : Nat) (k : Nat) (L : Locals) (p : Nat) (acc : List Val) (r : Res),
+      acc.length + n = i.toNat → n + 1 ≤ k →
       Agree Γ L ρ → specRep srun ρ e n p acc = some r →
-      ∃ L', implRep irun e n L p acc = some (r, L') ∧ Agree Γ L' ρ := by
+      ∃ L', implRepDyn P irun e t k L p acc = some (r, L') ∧ Agree Γ L' ρ := by
+  -- the count reads the same value in all locals that agree with ρ on Γ
+  have hev : ∀ L, Agree Γ L ρ → (valuesI L t.names).map (fun vs => P.pyf t.fn vs) = some (.int i) := by
+    intro L ha
+    have := ha.evalPy P t [] ht
+    unfold evalPyI evalPyS at this
+    simp only [List.nil_append] at this
+    rw [this]
+    unfold evalPyS at hcount
+    simpa using hcount
   intro n
   induction n with
   | zero =>
-    intro L p acc r ha h
+    intro k L p acc r hlen hk ha h
     simp only [specRep] at h
     cases h
-    exact ⟨L, rfl, ha⟩
+    cases k with
+    | zero => omega
+    | succ k' =>
+      have hle : i.toNat ≤ acc.length := by omega
+      exact ⟨L, by simp [implRepDyn, hev L ha, hle], ha⟩
   | succ n ih =>
-    intro L p acc r ha h
+    intro k L p acc r hlen hk ha h
     simp only [specRep] at h
-    cases he : srun e ρ p with
-    | none => simp [he] at h
-    | some r1 =>
-      obtain ⟨L1, h1, ha1⟩ := hsim e Γ L ρ p r1 hws ha he
-      cases r1 with
-      | fail =>
-        simp [he] at h
-        subst h
-        exact ⟨L1, by simp [implRep, h1], ha1⟩
-      | ok v p' =>
-        simp [he] at h
-        obtain ⟨L2, h2, ha2⟩ := ih L1 p' (v :: acc) r ha1 h
-        exact ⟨L2, by simp [implRep, h1, h2], ha2⟩
+    cases k with
+    | zero => omega
+    | succ k' =>
+      have hnle : ¬ i.toNat ≤ acc.length := by omega
+      cases he : srun e ρ p with
+      | none => simp [he] at h
+      | some r1 =>
+        obtain ⟨L1, h1, ha1⟩ := hsim e Γ L ρ p r1 hws ha he
+        cases r1 with
+        | fail =>
+          simp [he] at h
+          subst h
+          exact ⟨L1, by simp [implRepDyn, hev L ha, hnle, h1, hev L1 ha1], ha1⟩
+        | ok v p' =>
+          simp [he] at h
+          obtain ⟨L2, h2, ha2⟩ := ih k' L1 p' (v :: acc) r (by simp; omega) (by omega) ha1 h
+          exact ⟨L2, by simp [implRepDyn, hev L ha, hnle, h1, h2], ha2⟩
 
 theorem sim_items {srun : SRun} {irun : IRun} (hsim : Sim srun irun) (ctor : String) (fields : List Name)
     (start : Nat) :
@@ -1044,7 +1063,7 @@ theorem xgen_sim (P : XProgram) (inp : List Nat) (hP : WsProgram P) :
       rw [ha.evalPy P t [] hws.2]
       split at h
       · rename_i k hk
-        exact sim_rep ih Γ ρ e hws.1 k.toNat L p [] r ha h
+        exact sim_rep ih P Γ ρ e t hws.1 hws.2 k hk k.toNat (k.toNat + 1) L p [] r (by simp) (Nat.le_refl _) ha h
       · exact absurd h (by simp)
     | call t args =>
       simp only [xpeg] at h
